@@ -152,7 +152,18 @@ func init() {
 		}
 		if fn := x.Func(f, "Stack", "Slice"); fn != nil {
 			b := fn.Body.List
-			if x.wantStmts("Slice", b, "*", "cp := make([]T, len(s.list))", "*", "return cp") {
+			if x.matchStmts(b, "*", "cp := make([]T, len(s.list))", "copy(cp, s.list)", "slices.Reverse(cp)", "return cp") {
+				// the reversed copy spelled with the standard library: the same function as the pinned loop, whose facts
+				// (first index 0, start len-1, while i < len, step e-1) describe exactly "cp[i] = s.list[len-1-i] for all i"
+				g := b[0].(*ast.IfStmt)
+				cond("sliceEmpty", "Slice", g.Cond)
+				x.wantStmts("Slice (empty)", g.Body.List, "return nil")
+				const how = "`Slice`: `copy(cp, s.list); slices.Reverse(cp)` — a reversed copy"
+				fs.set("sliceFirst", "0", how)
+				fs.set("sliceStart", "(len - 1)", how)
+				fs.set("sliceContinues", "decide (i < len)", how)
+				fs.set("sliceStep", "(e - 1)", how)
+			} else if x.wantStmts("Slice", b, "*", "cp := make([]T, len(s.list))", "*", "return cp") {
 				g := b[0].(*ast.IfStmt)
 				cond("sliceEmpty", "Slice", g.Cond)
 				x.wantStmts("Slice (empty)", g.Body.List, "return nil")
